@@ -213,7 +213,6 @@ def category(route):
     classes = [c for c, _a in hops]
     if hcls == "SymbolTable":
         return f"table:{hattr.lstrip('_')}"
-    cls = _classes()
     # is the anchor a symbol class?  (all symbol classes end in 'Symbol')
     if hcls.endswith("Symbol"):
         if "StructureType" in classes:
@@ -234,7 +233,6 @@ def category(route):
             if attrs[-1] == "_datatype":
                 return "decl:type-symbol"
         return "decl:other(" + ">".join(route) + ")"
-    del cls
     # anchor is a tree node
     if hcls == "Literal" and attrs[-1] == "_precision":
         return "tree:Literal.precision"
